@@ -301,8 +301,9 @@ def normalize_url(
         query = fix_common_query_mistakes(query)
 
     # Handling punycode
+    # NOTE: same cleaning as in `normalize_hostname`
     if hostname:
-        hostname = decode_punycode_hostname(hostname)
+        hostname = decode_punycode_hostname(hostname.strip())
 
     # Dropping :80 & :443
     if port == 80 or port == 443:
